@@ -1,0 +1,16 @@
+//go:build verif
+
+// Contracts for the deductive checker in /verif (comment-only; compiled only with -tags verif).
+package wrgl
+
+// Push: which ref updates are sent. An update of an existing remote ref that is not marked forced is a fast-forward and
+// never touches a tag.
+//@ func identifyUpdates
+//@   props C10
+//@   requires db != nil && remoteRefs != nil && forall(k, member(remoteRefs, k) ==> len(remoteRefs[k]) == 16)
+//@   requires forall(k, 0, len(refspecs), refspecs[k] != nil)
+//@   modifies qseen, qqueued
+//@   ensures [C10] err == nil ==> pushGated(updates, force, len(updates))
+//@   loop 1 invariant iter <= len(refspecs) && (cap(updates) == 0 || fresh(updates)) && (cap(upToDateRefspecs) == 0 || fresh(upToDateRefspecs))
+//@   loop 1 invariant [C10] pushGated(updates, force, len(updates))
+//@   loop 1 decreases len(refspecs) - iter
